@@ -255,6 +255,7 @@ def check_C05(tier):
     expect_holds(rr, "Reader (joined file)"); c.add_tlc(rr)
     c.add_report(vh_replay("reader", rr.replay_path, "reader-c05"), "FileExecutor / join loader line reading vs Reader.tla (replay)")
     engine_run(c, "long-joined-file", "JoinMenu", lines="LinesJ", maxlines=2, maxfiles=1, joinsets="JoinSetsLong", tdefs=("plain",))
+    engine_run(c, "mixed-joined-file", "JoinMenu", lines="LinesJ", maxlines=2, maxfiles=1, joinsets="JoinSetsMixed", tdefs=("plain",))
     # join on a numeric column whose type differs on the two sides (INT = REAL), values around 2^53 included
     engine_run(c, "numeric-join", "NumJoinMenu", lines="LinesNum", maxlines=3, maxfiles=1, joinsets="JoinSetsNum", tdefs=("numjoin",))
     engine_run(c, "join", "JoinMenu", lines="LinesJ", maxlines=4 if t else 3, maxfiles=1, tdefs=("plain", "knn") if t else ("plain",))
@@ -625,6 +626,8 @@ def check_C18(tier):
         raise ToolError("specification error: Engine.tla is not deterministic (max out-degree %s)" % m.group(1))
     c.extra["engine_max_outdegree"] = int(m.group(1))
     engine_run(c, "determinism-join", "JoinMenu", lines="LinesJ", maxlines=3, maxfiles=1, tdefs=("plain",))
+    # joined partners in joined-file order: 120 joined lines, keys interleaved irregularly
+    engine_run(c, "determinism-long-join", "JoinMenu", lines="LinesJ", maxlines=2, maxfiles=1, joinsets="JoinSetsMixed", tdefs=("plain",))
     engine_run(c, "determinism-agg", "AggMenu", lines="LinesAgg", maxlines=2, maxfiles=1, tdefs=("plain",))
     engine_run(c, "determinism-distinct", "DistinctMenu", lines="Lines4", maxlines=4 if t else 3, maxfiles=1, tdefs=("plain",), modes=("batch", "incr"))
     # repeated executions in one process (laws: repeat) and in fresh processes with fresh hash seeds and other tables defined around
